@@ -235,46 +235,7 @@ func runC02(c *Ctx) {
 	}
 	c.Min("C02.G3", 6+14)
 
-	// ---- G4: signed-data parsing: ParseJWS + protected header rules
-	sdf := c.signedDataFuncs()
-	algM := c.Method("jws", "Headers", "Algorithm")
-	for _, typ := range []string{"update", "recover", "deactivate"} {
-		f := sdf[typ]
-		if f == nil {
-			c.Unresolved("C02.G4", parseSDMethod[typ])
-			continue
-		}
-		c.CheckGuard("C02.G4", typ+":ParseJWS", f, nil, callTo("ParseJWS(compactJWS)", parseJWS, pathIs("$1")))
-		isH := func(s string) bool {
-			return strings.HasPrefix(s, "jwsutil.ParseJWS($1,") && strings.HasSuffix(s, ")#0.ProtectedHeaders") && strings.Count(s, "(") == 1
-		}
-		isAlg := func(s string) bool {
-			if algM == nil {
-				return false
-			}
-			pre := short(algM.String()) + "("
-			return strings.HasPrefix(s, pre) && strings.HasSuffix(s, ")#0") && isH(s[len(pre):len(s)-3])
-		}
-		c.CheckGuard("C02.G4", typ+":alg-present", f, nil, &GCheck{Name: "headers.Algorithm() ok", MatchCall: func(c *Ctx, call *ssa.Call, env Env) bool {
-			return algM != nil && call.Call.StaticCallee() == algM && isH(c.Path(call.Call.Args[0], env))
-		}})
-		c.CheckGuard("C02.G4", typ+":alg-non-empty", f, nil, cmpReject(`alg == "" rejected`, token.EQL, isAlg, pathIs(`""`)))
-		// allowed algorithm list: membership call with (Protocol.SignatureAlgorithms, alg)
-		c.CheckGuard("C02.G4", typ+":alg-in-SignatureAlgorithms", f, nil, &GCheck{Name: "alg ∈ Protocol.SignatureAlgorithms", MatchCall: func(c *Ctx, call *ssa.Call, env Env) bool {
-			g := call.Call.StaticCallee()
-			if g == nil || !(inModule(g) || isSlicesContains(g)) || !isBoolType(call.Type()) || len(call.Call.Args) != 2 {
-				return false
-			}
-			if c.Path(call.Call.Args[0], env) != "$0.Protocol.SignatureAlgorithms" || !isAlg(c.Path(call.Call.Args[1], env)) {
-				return false
-			}
-			ok, _ := c.isMembershipFn(g)
-			return ok
-		}})
-		// header whitelist: every header name is looked up in a literal set equal to {alg, kid}
-		c.checkHeaderWhitelist("C02.G4", typ, f, isH)
-	}
-	c.Min("C02.G4", 3*5)
+	c.protectedHeaderRules()
 
 	// ---- G5: delta binding in the applier
 	for _, typ := range []string{"update", "recover", "create"} {
@@ -387,51 +348,58 @@ func (c *Ctx) checkHeaderWhitelist(rule, typ string, f *ssa.Function, isH func(s
 			return
 		}
 		seen[g] = true
-		// a Lookup (comma-ok) in a MakeMap literal keyed by next(range(H))
-		for _, b := range g.Blocks {
-			for _, in := range b.Instrs {
-				lk, ok := in.(*ssa.Lookup)
-				if !ok || !lk.CommaOk {
+		// a test of the header name next(range(H)) against a constant set, in any spelling (map literal lookup,
+		// switch / equality chain, membership function over a slice literal)
+		isName := func(ip string) bool {
+			i0 := strings.Index(ip, "range(")
+			if i0 < 0 || !strings.HasSuffix(ip, "))#0") && !strings.HasSuffix(ip, "))#1") {
+				return false
+			}
+			return isH(ip[i0+6 : len(ip)-4])
+		}
+		for _, t := range c.constSetTests(g, env, isName) {
+			found = true
+			wfn = g
+			wantAlg, _ := c.ConstVal("jws", "HeaderAlgorithm")
+			wantKid, _ := c.ConstVal("jws", "HeaderKeyID")
+			want := sortedCopy([]string{unquote(wantAlg), unquote(wantKid)})
+			c.Check(rule, typ+":header-whitelist-set", eqStrs(t.set, want) && eqStrs(want, []string{"alg", "kid"}), t.pos, fmt.Sprintf("allowed protected-header set %s (expected {alg,kid} = jws.HeaderAlgorithm, jws.HeaderKeyID)", fmtSet(t.set)))
+			// loop form: each iteration crosses a member edge
+			cut := map[edge]bool{}
+			for _, e := range t.member {
+				cut[e] = true
+			}
+			okLoop := false
+			var w []string
+			for _, l := range naturalLoops(g) {
+				if !l.blocks[t.blk] {
 					continue
 				}
-				mm, ok := lk.X.(*ssa.MakeMap)
-				if !ok {
+				okLoop, w = c.loopForall(g, l, cut, "header name ∈ allowed set")
+			}
+			c.Check(rule, typ+":header-whitelist-forall", okLoop, t.pos, "every protected header name must be in the allowed set (for-all loop, rejecting only)", w...)
+			// ... and the loop itself cannot be bypassed: no successful exit of the function is reachable without
+			// entering the loop (a length pre-test in front of it would let small header sets through unchecked)
+			for _, l := range naturalLoops(g) {
+				if !l.blocks[t.blk] {
 					continue
 				}
-				ip := c.Path(lk.Index, env)
-				i0 := strings.Index(ip, "range(")
-				if i0 < 0 || !strings.HasSuffix(ip, "))#0") && !strings.HasSuffix(ip, "))#1") {
-					continue
-				}
-				if !isH(ip[i0+6 : len(ip)-4]) {
-					continue
-				}
-				found = true
-				wfn = g
-				keys, lit := c.mapLiteralKeys(mm)
-				wantAlg, _ := c.ConstVal("jws", "HeaderAlgorithm")
-				wantKid, _ := c.ConstVal("jws", "HeaderKeyID")
-				want := sortedCopy([]string{unquote(wantAlg), unquote(wantKid)})
-				c.Check(rule, typ+":header-whitelist-set", lit && eqStrs(keys, want) && eqStrs(want, []string{"alg", "kid"}), mm.Pos(), fmt.Sprintf("allowed protected-header set %s (expected {alg,kid} = jws.HeaderAlgorithm, jws.HeaderKeyID)", fmtSet(keys)))
-				okv := extractOf2(lk, 1)
-				chk := &GCheck{Name: "header name ∈ allowed set", NoDescend: true, MatchCmp: nil, MatchCall: nil}
-				_ = chk
-				// loop form: each iteration crosses the ok==true edge
-				cut := map[edge]bool{}
-				if okv != nil {
-					for _, e := range boolEdges(okv, true) {
-						cut[e] = true
+				cutIn := map[edge]bool{}
+				for _, p := range l.header.Preds {
+					if !l.blocks[p] {
+						cutIn[edge{from: p, to: l.header}] = true
 					}
 				}
-				okLoop := false
-				var w []string
-				for _, l := range naturalLoops(g) {
-					if !l.blocks[lk.Block()] {
-						continue
+				bypass := false
+				for b := range reach(g.Blocks[0], cutIn) {
+					if r, isR := b.Instrs[len(b.Instrs)-1].(*ssa.Return); isR && maySucceed(r) && !l.blocks[b] {
+						bypass = true
 					}
-					okLoop, w = c.loopForall(g, l, cut, "header name ∈ allowed set")
 				}
-				c.Check(rule, typ+":header-whitelist-forall", okLoop, lk.Pos(), "every protected header name must be in the allowed set (for-all loop, rejecting only)", w...)
+				if g.Blocks[0] == l.header {
+					bypass = false
+				}
+				c.Check(rule, typ+":header-whitelist-not-bypassed", !bypass, t.pos, "the function cannot succeed without running the loop over the protected headers")
 			}
 		}
 		for _, b := range g.Blocks {
@@ -472,4 +440,55 @@ func extractOf2(v ssa.Value, idx int) ssa.Value {
 		}
 	}
 	return nil
+}
+
+// protectedHeaderRules (C02.G4): signed data is a compact JWS parsed by ParseJWS; alg present, non-empty and in the
+// protocol's list; every protected header name lies in the literal set {alg, kid}. Shared with C07, whose statement
+// carries the same clause.
+func (c *Ctx) protectedHeaderRules() {
+	parseJWS := c.Fn("jwsutil", "ParseJWS")
+	if parseJWS == nil {
+		c.Unresolved("C02.G4", "jwsutil.ParseJWS")
+		return
+	}
+	// ---- G4: signed-data parsing: ParseJWS + protected header rules
+	sdf := c.signedDataFuncs()
+	algM := c.Method("jws", "Headers", "Algorithm")
+	for _, typ := range []string{"update", "recover", "deactivate"} {
+		f := sdf[typ]
+		if f == nil {
+			c.Unresolved("C02.G4", parseSDMethod[typ])
+			continue
+		}
+		c.CheckGuard("C02.G4", typ+":ParseJWS", f, nil, callTo("ParseJWS(compactJWS)", parseJWS, pathIs("$1")))
+		isH := func(s string) bool {
+			return strings.HasPrefix(s, "jwsutil.ParseJWS($1,") && strings.HasSuffix(s, ")#0.ProtectedHeaders") && strings.Count(s, "(") == 1
+		}
+		isAlg := func(s string) bool {
+			if algM == nil {
+				return false
+			}
+			pre := short(algM.String()) + "("
+			return strings.HasPrefix(s, pre) && strings.HasSuffix(s, ")#0") && isH(s[len(pre):len(s)-3])
+		}
+		c.CheckGuard("C02.G4", typ+":alg-present", f, nil, &GCheck{Name: "headers.Algorithm() ok", MatchCall: func(c *Ctx, call *ssa.Call, env Env) bool {
+			return algM != nil && call.Call.StaticCallee() == algM && isH(c.Path(call.Call.Args[0], env))
+		}})
+		c.CheckGuard("C02.G4", typ+":alg-non-empty", f, nil, cmpReject(`alg == "" rejected`, token.EQL, isAlg, pathIs(`""`)))
+		// allowed algorithm list: membership call with (Protocol.SignatureAlgorithms, alg)
+		c.CheckGuard("C02.G4", typ+":alg-in-SignatureAlgorithms", f, nil, &GCheck{Name: "alg ∈ Protocol.SignatureAlgorithms", MatchCall: func(c *Ctx, call *ssa.Call, env Env) bool {
+			g := call.Call.StaticCallee()
+			if g == nil || !(inModule(g) || isSlicesContains(g)) || !isBoolType(call.Type()) || len(call.Call.Args) != 2 {
+				return false
+			}
+			if c.Path(call.Call.Args[0], env) != "$0.Protocol.SignatureAlgorithms" || !isAlg(c.Path(call.Call.Args[1], env)) {
+				return false
+			}
+			ok, _ := c.isMembershipFn(g)
+			return ok
+		}})
+		// header whitelist: every header name is looked up in a literal set equal to {alg, kid}
+		c.checkHeaderWhitelist("C02.G4", typ, f, isH)
+	}
+	c.Min("C02.G4", 3*5)
 }
